@@ -435,5 +435,9 @@ bool BuildLog::Restat(const StringPiece path,
 
   fclose(f);
 
-  return ReplaceContent(path.AsString(), temp_path, err);
+  if (!ReplaceContent(path.AsString(), temp_path, err))
+    return false;
+  // The file now holds exactly one record per output.
+  needs_recompaction_ = false;
+  return true;
 }
